@@ -160,5 +160,5 @@ UNIT = dict(
     'lr.ctor.init': dict(deciding=True, text='the constructors establish the idle invariant: indicator == version index, both counters 0, mutex free, both instances initialised from the source(s)'),
   },
   loop_obligation={'WAIT': 'lr.wait.spins_until_empty'},
-  canaries=[],
+  canaries=['ctor.one', 'ctor.two', 'env_closed.reached', 'guard.v0', 'guard.v1', 'indicator.arrive', 'indicator.depart', 'indicator.empty', 'indicator.get', 'indicator.nonempty', 'indicator.pair', 'read.functor_threw', 'read.left', 'read.returned', 'read.right', 'read.v0', 'read.v1', 'read_int.indicator_moved', 'read_int.version_moved', 'read_seq.returned', 'read_seq.threw', 'toggle.v0', 'toggle.v1', 'toggle_int.arrived_on_new_version', 'toggle_int.new_reader_inside', 'update.left_first', 'update.right_first', 'update.throw_first', 'update.throw_second', 'update2.done', 'update2_int.reader_cycled_twice', 'update2_int.reader_inside_at_end', 'update_int.arrived_between_switch_and_toggle_old_version', 'update_int.arrived_between_switch_and_toggle_stale_version', 'update_int.reader_on_new_instance_during_second_application', 'update_int.reader_on_old_instance_during_first_application', 'wait.idx0', 'wait.idx1', 'wait.returned', 'wait_int.reader_cycled', 'wait_int.reader_on_other_indicator'],
 )
